@@ -11,6 +11,8 @@
 //! fails or parses back equal.
 //! and the ops  hd maj= min= sdo= dom= seq= li=  /  hn min=  (header fields at their boundaries through the public
 //! constructors PtpVersion::new, SdoId::try_from, Header::new: constructor accepts => serialise -> parse is equal).
+//! and the op  ts via=<new|set> s= n=  (timestamps through Timestamp::new or try_set_seconds + try_set_nanos at the
+//! 2^48 / 10^9 boundaries; rejected ops logged; implementation-only oracle c41_setter_constructor_agree).
 //! Both feed the op   de fill=<byte> cap=<n> pkt=<hex>
 //! = `Message::deserialize(pkt)`, dump of the parsed message, and its re-serialisation into a `cap`-byte
 //! buffer pre-filled with `fill`.  Observation: `err:<Kind>` | `ok h=.. b=.. s=<suffix> re=<bytes|err:Kind>`.
@@ -547,6 +549,87 @@ fn gen_hn(rng: &mut Rng, k: u64) -> String {
     format!("hn min={}", if k < 8 { V[k as usize] } else { *rng.pick(&V) })
 }
 
+// ---------------------------------------------------------------------------------------------
+// timestamps through BOTH routes (op `ts`): `Timestamp::new(s, n)` or `Timestamp::default()` + `try_set_seconds(s)` +
+// `try_set_nanos(n)`, with boundary values; rejected ops are logged as rejected; accepted ones are serialised in a
+// Sync and must parse back equal.  Implementation-only oracle `c41_setter_constructor_agree`: for every value,
+// the setter accepts it iff the constructor accepts it in that position.  (Timestamp is the only wire type with a
+// fallible constructor / setter PAIR; SdoId / PtpVersion have constructors only: ops `hd`, `hn`.)
+
+fn exec_ts(run: &mut Run, rest: &[&str]) -> String {
+    let via = kv(rest, "via").unwrap();
+    let s: u64 = kv(rest, "s").unwrap().parse().unwrap();
+    let n: u32 = kv(rest, "n").unwrap().parse().unwrap();
+    // ---- implementation-only oracle: setter verdict == constructor verdict, per field
+    let mut probe = Timestamp::default();
+    let set_s = probe.try_set_seconds(s).is_ok();
+    let new_s = Timestamp::new(s, 0).is_ok();
+    let set_n = probe.try_set_nanos(n).is_ok();
+    let new_n = Timestamp::new(0, n).is_ok();
+    if set_s != new_s {
+        run.oracle_fail(
+            "c41_setter_constructor_agree",
+            "field=seconds",
+            &format!("seconds = {}: Timestamp::try_set_seconds {} it, Timestamp::new {} it", s, if set_s { "accepts" } else { "rejects" }, if new_s { "accepts" } else { "rejects" }),
+        );
+    }
+    if set_n != new_n {
+        run.oracle_fail(
+            "c41_setter_constructor_agree",
+            "field=nanos",
+            &format!("nanos = {}: Timestamp::try_set_nanos {} it, Timestamp::new {} it", n, if set_n { "accepts" } else { "rejects" }, if new_n { "accepts" } else { "rejects" }),
+        );
+    }
+    let okerr = |b: bool| if b { "ok" } else { "err" };
+    let (verdict, ts) = if via == "new" {
+        let r = Timestamp::new(s, n);
+        (format!("new={}", okerr(r.is_ok())), r.ok())
+    } else {
+        let mut t = Timestamp::default();
+        let a = t.try_set_seconds(s).is_ok();
+        let b = t.try_set_nanos(n).is_ok();
+        (format!("sec={} nan={}", okerr(a), okerr(b)), if a && b { Some(t) } else { None })
+    };
+    run.hit(&format!("ts-{}-{}", via, if ts.is_some() { "accepted" } else { "rejected" }));
+    let Some(ts) = ts else { return format!("{} rejected", verdict) };
+    let msg = Message { header: Header::new(1), body: MessageBody::Sync(SyncMessage { origin_timestamp: ts }), suffix: TlvSet::default() };
+    let mut buf = vec![0u8; 64];
+    match msg.serialize(&mut buf) {
+        Err(e) => format!("{} {}", verdict, err_str(&e)),
+        Ok(len) => {
+            let out = &buf[..len];
+            let back = match Message::deserialize(out) {
+                Ok(m2) if m2 == msg => "eq".to_string(),
+                Ok(_) => "neq".to_string(),
+                Err(e) => err_str(&e).to_string(),
+            };
+            if back != "eq" {
+                run.oracle_fail(
+                    "ser_then_parse",
+                    "enum_payload_out_of_domain=0 ctor=timestamp",
+                    &format!("a Sync whose timestamp ({} s, {} ns) was accepted via {} ({}) serialises to {} and parses back: {} ({:?})", s, n, via, verdict, hex(out), back, Message::deserialize(out).map(|m| m.body)),
+                );
+            }
+            run.nontrivial(&format!("ts {} {}", s >> 40, n / 100_000_000));
+            format!("{} ser={} back={}", verdict, hex(out), back)
+        }
+    }
+}
+
+fn gen_ts_op(rng: &mut Rng, k: u64) -> String {
+    const S: [u64; 10] = [(1 << 48) - 1, 1 << 48, (1 << 48) + 1, u64::MAX, 0, 1, (1 << 48) - 2, 1 << 47, 1 << 63, 0x0000_ffff_0000_0000];
+    const N: [u32; 7] = [999_999_999, 1_000_000_000, 1_000_000_001, u32::MAX, 0, 1, 500_000_000];
+    // sweep first: every seconds boundary with valid nanos by both routes, then every nanos boundary, then mixes
+    let (via, s, n) = if k < 20 {
+        (k % 2, S[(k / 2) as usize], *rng.pick(&[0u32, 999_999_999, 1]))
+    } else if k < 34 {
+        (k % 2, *rng.pick(&[0u64, (1 << 48) - 1, 1]), N[((k - 20) / 2) as usize])
+    } else {
+        (rng.below(2), *rng.pick(&S), *rng.pick(&N))
+    };
+    format!("ts via={} s={} n={}", if via == 0 { "new" } else { "set" }, s, n)
+}
+
 fn exec_case(ops: &[String], run: &mut Run) {
     for op in ops {
         run.begin_op(op);
@@ -603,6 +686,10 @@ fn exec_case(ops: &[String], run: &mut Run) {
                 let obs = exec_hn(run, rest);
                 run.end_op(&obs);
             }
+            ["ts", rest @ ..] => {
+                let obs = exec_ts(run, rest);
+                run.end_op(&obs);
+            }
             ["sz", rest @ ..] => {
                 let obs = exec_sz(run, rest);
                 run.end_op(&obs);
@@ -655,6 +742,10 @@ fn entry() {
                             if idx % 3 == 0 || idx % 20 == 7 {
                                 ops.push(gen_hn(&mut rng, if sweep { (idx - 12) / 3 } else { 100 }));
                             }
+                        }
+                        // timestamps through constructor AND setters at their boundaries: cases 44..=77, then every 10th
+                        if (44..78).contains(&idx) || idx % 10 == 3 {
+                            ops.push(gen_ts_op(&mut rng, if (44..78).contains(&idx) { idx - 44 } else { 100 }));
                         }
                         for _ in 0..n {
                             let big = rng.chance(1, 50);
